@@ -134,6 +134,27 @@ type c12Call struct {
 	Rows   [][]int64 `json:"rows,omitempty"` // id, shard, org (-1: NULL), n
 	Chunk  int       `json:"chunk,omitempty"`
 	Tx     bool      `json:"tx"`
+	Where  int       `json:"where,omitempty"` // query / queryRow with SelectOptions.Where = c12Wheres[Where-1]
+}
+
+// custom WHERE clauses handed to Query / QueryRow through SelectOptions: the limits must confine the whole
+// statement, whatever the clause's own structure (a top-level OR must not escape the filter)
+var c12Wheres = []struct {
+	where  string
+	values []interface{}
+}{
+	{"n = ?", []interface{}{int64(10)}},
+	{"n = ? OR n = ?", []interface{}{int64(10), int64(20)}},
+	{"id = ? AND n = ? OR id = ?", []interface{}{int64(1), int64(10), int64(2)}},
+	{"(n = ? OR id = ?) AND n IN (?, ?)", []interface{}{int64(0), int64(3), int64(0), int64(10)}},
+}
+
+func (cl c12Call) options() *sqlgen.SelectOptions {
+	if cl.Where == 0 {
+		return nil
+	}
+	w := c12Wheres[cl.Where-1]
+	return &sqlgen.SelectOptions{Where: w.where, Values: append([]interface{}{}, w.values...)}
 }
 
 type c12Case struct {
@@ -208,13 +229,11 @@ func c12ParseStmt(st fsStmt) (c12Parsed, error) {
 			return nil, err
 		}
 		var out [][]string
-		k := 0
 		for _, g := range cond {
 			// an IN group stands for one branch per value
 			branches := [][]string{{}}
 			for _, a := range g {
-				vals := args[k : k+a.n]
-				k += a.n
+				vals := args[a.at : a.at+a.n]
 				if a.op == "ISNULL" {
 					for i := range branches {
 						branches[i] = append(branches[i], a.col+"=NULL")
@@ -458,10 +477,10 @@ func (e *c12Env) callIn(db *sqlgen.DB, ctx context.Context, cl c12Call) error {
 	switch cl.Op {
 	case "query":
 		var out []*c12Row
-		return db.Query(ctx, &out, c12Filter(cl.Filter), nil)
+		return db.Query(ctx, &out, c12Filter(cl.Filter), cl.options())
 	case "queryRow":
 		var out *c12Row
-		return db.QueryRow(ctx, &out, c12Filter(cl.Filter), nil)
+		return db.QueryRow(ctx, &out, c12Filter(cl.Filter), cl.options())
 	case "count":
 		_, err := db.Count(ctx, &c12Row{}, c12Filter(cl.Filter))
 		return err
@@ -544,7 +563,14 @@ func c12One(c *Ctx, m *Model, cs c12Case) {
 	for _, s := range resp["stmts"].([]interface{}) {
 		model = append(model, c12ModelStmt(s.(map[string]interface{})))
 	}
-	if fmt.Sprint(impl) != fmt.Sprint(model) {
+	if cs.Call.Where > 0 {
+		// the custom clause is not part of the model's statement; the statement was checked against the limits above
+		rep.Count("custom_where")
+		if len(impl) != len(model) {
+			rep.Fail("impl_ne_model", nil, cs, map[string]interface{}{"what": "number of statements differs from the model's", "impl": impl, "model": model})
+			return
+		}
+	} else if fmt.Sprint(impl) != fmt.Sprint(model) {
 		rep.Fail("impl_ne_model", nil, cs, map[string]interface{}{"what": "statements received by the driver differ from the model's", "impl": impl, "model": model})
 		return
 	}
@@ -593,6 +619,7 @@ func c12Batch(c *Ctx, m *Model, handles []c12Handle, filters [][]c12KV) {
 		enforced []string
 	}
 	var ok []want
+	var verdictDiff map[string]interface{}
 	for i, h := range handles {
 		resp, err := m.Call(map[string]interface{}{"op": "exec", "handle": h.enc(), "call": map[string]interface{}{"op": "query", "filter": c12EncKVs(filters[i])}})
 		if err != nil {
@@ -601,8 +628,10 @@ func c12Batch(c *Ctx, m *Model, handles []c12Handle, filters [][]c12KV) {
 		}
 		mErr := resp["error"].(bool)
 		if mErr != (errs[i] != nil && strings.Contains(errs[i].Error(), "check failed for db with")) {
-			rep.Fail("impl_ne_model", nil, cs, map[string]interface{}{"what": "verdict of a batched query differs from the model", "query": i, "impl_error": fmt.Sprint(errs[i]), "model_error": mErr})
-			return
+			// keep looking: if a statement of this batch escapes the limits, that is the violation itself
+			if verdictDiff == nil {
+				verdictDiff = map[string]interface{}{"what": "verdict of a batched query differs from the model", "query": i, "impl_error": fmt.Sprint(errs[i]), "model_error": mErr}
+			}
 		}
 		if !mErr {
 			var b []string
@@ -619,9 +648,19 @@ func c12Batch(c *Ctx, m *Model, handles []c12Handle, filters [][]c12KV) {
 			rep.Fail("harness_error", nil, cs, map[string]interface{}{"error": err.Error()})
 			return
 		}
-		for _, b := range p.Where {
+		branches := p.Where
+		if len(branches) == 0 {
+			branches = [][]string{nil} // no WHERE at all: only an unlimited query with an empty filter may ask for that
+		}
+		for _, b := range branches {
 			found := false
 			for _, w := range ok {
+				if len(b) == 0 {
+					if w.branch == "[]" && len(w.enforced) == 0 {
+						found = true
+					}
+					continue
+				}
 				if w.branch == fmt.Sprint(b) && c12Carries(c12Parsed{Kind: "select", Where: [][]string{b}}, w.enforced) {
 					found = true
 				}
@@ -631,6 +670,10 @@ func c12Batch(c *Ctx, m *Model, handles []c12Handle, filters [][]c12KV) {
 				return
 			}
 		}
+	}
+	if verdictDiff != nil {
+		rep.Fail("impl_ne_model", nil, cs, verdictDiff)
+		return
 	}
 	rep.Count("batch")
 	rep.Eval(Canon(cs), true, map[string]interface{}{"op": "batch", "queries": len(handles)})
@@ -774,7 +817,7 @@ func runC12(c *Ctx) error {
 		case 0, 1:
 			cl = c12Call{Op: []string{"query", "queryRow", "count"}[r.Intn(3)], Filter: c12GenFilter(r, h)}
 		case 2:
-			cl = c12Call{Op: "query", Filter: c12GenFilter(r, h)}
+			cl = c12Call{Op: []string{"query", "queryRow"}[r.Intn(2)], Filter: c12GenFilter(r, h), Where: 1 + r.Intn(len(c12Wheres))}
 		case 3:
 			cl = c12Call{Op: []string{"insertRow", "upsertRow"}[r.Intn(2)], Rows: [][]int64{c12GenRow(r, h, r.Chance(0.6))}}
 		case 4, 5:
